@@ -9,7 +9,7 @@ pub fn prop() -> Prop {
     Prop {
         id: "C18",
         level: "model_checking",
-        rule: "(8 base expressions and 3 big ones: nesting depth 33, a 300-character literal, 130 arguments) paths ending in a separator (.a. / .a.b# / (len .a.)) in every position; every foreign output option next to every option of the style's own group; every corrupted configuration alone and next to each of 8 valid neighbour options (--take 0/1, --skip, --unique, --merge, --only-objects-and-arrays, a regex cache, --on-error=panic), and - for the repeatable --select and --sort-by - after a valid occurrence of the same option with the uncorrupted expression (directly, and with another occurrence in between); valid configurations = 7 option positions (--select, --filter, --split-by, --group-by, --sort-by, --set variable, --set macro) x 8 base expressions x 6 output styles (+ every pure function with a canonical argument list in every position, json style); corruptions (one fault each): truncation at EVERY byte offset that lies inside parentheses or a string, one '(' or ')' too many, unknown function name, arity min-1 / max+1 for every function, trailing garbage of 4 kinds, bad sort directions, malformed --set (no '=', empty name, empty macro name, duplicate, empty value), output options of another style, csv without selections / with grouping / with merge, --headers without selections, invalid enum and numeric option values; non-trivial = the uncorrupted configuration runs Ok and prints >= 1 byte; distinct by construction; every arrangement of <=4 --set options over {a=1, a=2, @a=1, @a=.x, b=1} that binds the same variable or the same macro twice; references /K/ and /Full name/ to a selected name cut anywhere before their closing slash (bare, inside a call, last argument, pipe stage) in 8 option positions; unparsable expressions given as a separate word behind every long, second long and short name of the five expression options, with the input in files named before or after the option, under three --on-error policies",
+        rule: "(8 base expressions and 3 big ones: nesting depth 33, a 300-character literal, 130 arguments) paths ending in a separator (.a. / .a.b# / (len .a.)) in every position; every foreign output option next to every option of the style's own group; every corrupted configuration alone and next to each of 8 valid neighbour options (--take 0/1, --skip, --unique, --merge, --only-objects-and-arrays, a regex cache, --on-error=panic), and - for the repeatable --select and --sort-by - after a valid occurrence of the same option with the uncorrupted expression (directly, and with another occurrence in between); valid configurations = 7 option positions (--select, --filter, --split-by, --group-by, --sort-by, --set variable, --set macro) x 8 base expressions x 6 output styles (+ every pure function with a canonical argument list in every position, json style); corruptions (one fault each): truncation at EVERY byte offset that lies inside parentheses or a string, one '(' or ')' too many, unknown function name, arity min-1 / max+1 for every function (in the function form and in the dotted form, where the input counts as an argument), trailing garbage of 4 kinds, bad sort directions, malformed --set (no '=', empty name, empty macro name, duplicate, empty value), output options of another style, csv without selections / with grouping / with merge, --headers without selections, invalid enum and numeric option values; non-trivial = the uncorrupted configuration runs Ok and prints >= 1 byte; distinct by construction; every arrangement of <=4 --set options over {a=1, a=2, @a=1, @a=.x, b=1} that binds the same variable or the same macro twice; references /K/ and /Full name/ to a selected name cut anywhere before their closing slash (bare, inside a call, last argument, pipe stage) in 8 option positions; unparsable expressions given as a separate word behind every long, second long and short name of the five expression options, with the input in files named before or after the option, under three --on-error policies",
         explanation: "each corrupted configuration is executed on a non-empty input; oracle: Err (or clap usage error), zero bytes on stdout, the stdin factory is never invoked",
         assumptions: COMMON_ASSUMPTIONS.to_vec(),
         guards: vec!["after-a-valid-occurrence-of-the-same-option", "trailing-blank-that-is-not-white-space", "bad-expression-as-a-separate-word-after-file-names", "truncated-selected-name-reference", "duplicate-set-with-another-binding-in-between", "dangling-path-separator", "with-a-neighbour-option", "truncation", "arity", "trailing-garbage", "set-malformed", "style-mismatch", "csv-without-selection", "valid-config-prints"],
@@ -344,6 +344,16 @@ fn run(ctx: &mut Ctx) {
                     let args: Vec<&str> = std::iter::repeat("1").take(f.max + 1).collect();
                     let e = format!("({} {})", name, args.join(" "));
                     judge(ctx, "arity-too-many", &format!("{pos} {e}"), with_expr(pos, &e, 0), true);
+                    // the dotted form `(.f a b)` stands for `(f . a b)`: the input counts as the first argument, so
+                    // max arguments written are one too many - and min-1 written are exactly enough, not too few
+                    let args: Vec<&str> = std::iter::repeat("1").take(f.max).collect();
+                    let e = if args.is_empty() { format!("(.{name})") } else { format!("(.{} {})", name, args.join(" ")) };
+                    judge(ctx, "arity-too-many", &format!("{pos} {e} (dotted form)"), with_expr(pos, &e, 0), true);
+                }
+                if f.min >= 2 && f.min - 2 <= 3 {
+                    let args: Vec<&str> = canonical_args(f)[1..][..(f.min - 2).min(3)].to_vec();
+                    let e = if args.is_empty() { format!("(.{name})") } else { format!("(.{} {})", name, args.join(" ")) };
+                    judge(ctx, "arity-too-few", &format!("{pos} {e} (dotted form)"), with_expr(pos, &e, 0), true);
                 }
                 let e = format!("({}x 1)", name);
                 if ftable::FUNCTIONS.iter().all(|g| g.name != &e[1..e.len() - 3] && !g.aliases.contains(&&e[1..e.len() - 3])) {
